@@ -409,7 +409,9 @@ def build(repo=None):
             return [n for n in ast.walk(scope_fn) if not any(id(n) in {id(x) for x in ast.walk(o)} for o in nested_fns if o is not scope_fn and o in list(ast.walk(scope_fn)))]
 
         ALLOWED = {"tree": {"_check", "tree_flatten"}, "list": {"enumerate", "len"}, "leaf": {"is_check_leaftype", "is_flatten_leaftype", "is_leaftype", "accepts_leaftype"}}
-        scopes = [(f, {"obj"}, set(), set())] + [(nf, set(), set(), {a.arg for a in nf.args.args}) for nf in nested_fns]
+        # nested defs that RECEIVE leaves are the leaf-type checkers (a leaf handed to any other callee is flagged at the call site);
+        # other nested defs (e.g. a structure predicate applied to dummy trees) work on other data
+        scopes = [(f, {"obj"}, set(), set())] + [(nf, set(), set(), {a.arg for a in nf.args.args}) for nf in nested_fns if nf.name in ALLOWED["leaf"]]
         for scope_fn, tree_names, list_names, leaf_names in scopes:
             nodes = own_nodes(scope_fn)
             for n in nodes:
